@@ -15,10 +15,10 @@ DS = "dna_string::DnaString"
 
 def run(F, rep):
     rep.engines.update(["E2-BV", "E2-DT", "E1"])
-    lemmas.dnastring_lemmas(F, rep, which={"new", "get", "push", "extend", "rc", "render", "ndiffs"})
-    lemmas.dnastring_render_lemmas(F, rep, "C14.3")
-    lemmas.dnastring_order_lemmas(F, rep, "C14.4")
-    structural.check_derives(F, rep, "C14.4", DS, ["std::cmp::PartialEq", "std::cmp::Eq", "std::hash::Hash", "std::cmp::PartialOrd", "std::cmp::Ord"])
+    rep.run(lemmas.dnastring_lemmas, F, rep, which={"new", "get", "push", "extend", "rc", "render", "ndiffs"})
+    rep.run(lemmas.dnastring_render_lemmas, F, rep, "C14.3")
+    rep.run(lemmas.dnastring_order_lemmas, F, rep, "C14.4")
+    rep.run(structural.check_derives, F, rep, "C14.4", DS, ["std::cmp::PartialEq", "std::cmp::Eq", "std::hash::Hash", "std::cmp::PartialOrd", "std::cmp::Ord"])
     fns = structural.field_names(F, DS)
     if fns == ["storage", "len"]:
         rep.holds("C14.4", "field-order", "derived comparison sees (storage, len): lexicographic order of the bases with a proper prefix first")
@@ -30,7 +30,7 @@ def run(F, rep):
         rep.holds("C14.1", "fields-private", "storage and len cannot be written from outside the crate")
     else:
         rep.violated("C14.1", "fields-private", "a representation field of DnaString is public: %s" % vis)
-    structural.dnastring_writers(F, rep, "C14.1")
-    dt_seq.dnastring_view_ctors(F, rep, "C14.5")
-    dt_strings.packed_set_add(F, rep, "C14.5")
-    dt_strings.from_acgt_bytes_lemma(F, rep, "C14.2")
+    rep.run(structural.dnastring_writers, F, rep, "C14.1")
+    rep.run(dt_seq.dnastring_view_ctors, F, rep, "C14.5")
+    rep.run(dt_strings.packed_set_add, F, rep, "C14.5")
+    rep.run(dt_strings.from_acgt_bytes_lemma, F, rep, "C14.2")
